@@ -222,30 +222,32 @@ Section Hl.
   Definition show_hrows (limit : option Z) (x : flow * list row) : list (list byte) :=
     map (fun r => B"row " ++ show_record r) (rev_append (snd x) []) ++ [show_flow (caller_flow limit x); rlock_events].
 
+  (* a high level command once the schema record is known: cmd, table, remaining arguments *)
+  Definition run_hl_sc (cmd : list byte) (sc : schema) (table : list byte) (rest : list (list byte)) : option (list (list byte)) :=
+    match rest with
+    | [a; cols] =>
+      if bytes_eqb cmd B"hselect" then
+        Some (show_hrows (lim a) (h_select pg op npages _ (collect_hrow (lim a)) sc table (read_names cols) []))
+      else if bytes_eqb cmd B"hselectrowid" then
+        Some (show_hrows None (h_select_rowid pg op npages _ (collect_hrow None) sc table (read_Z a) (read_names cols) []))
+      else if bytes_eqb cmd B"hiselect" then
+        Some (show_hrows None (h_indexed_select pg op npages _ (collect_hrow None) sc table (unhex a) (read_names cols) []))
+      else if bytes_eqb cmd B"hpkselect" then
+        Some (show_hrows None (h_pk_select pg op npages _ (collect_hrow None) sc table (read_hkey a) (read_names cols) []))
+      else None
+    | [a; k; cols] =>
+      if bytes_eqb cmd B"hiselecteq" then
+        Some (show_hrows None (h_indexed_select_eq pg op npages _ (collect_hrow None) sc table (unhex a) (read_hkey k) (read_names cols) []))
+      else None
+    | _ => None
+    end.
+
   Definition run_hl (w : list (list byte)) : option (list (list byte)) :=
     match w with
     | cmd :: sch :: table :: rest =>
       match read_schema sch with
       | None => None
-      | Some sc =>
-        let table := unhex table in
-        match rest with
-        | [a; cols] =>
-          if bytes_eqb cmd B"hselect" then
-            Some (show_hrows (lim a) (h_select pg op npages _ (collect_hrow (lim a)) sc table (read_names cols) []))
-          else if bytes_eqb cmd B"hselectrowid" then
-            Some (show_hrows None (h_select_rowid pg op npages _ (collect_hrow None) sc table (read_Z a) (read_names cols) []))
-          else if bytes_eqb cmd B"hiselect" then
-            Some (show_hrows None (h_indexed_select pg op npages _ (collect_hrow None) sc table (unhex a) (read_names cols) []))
-          else if bytes_eqb cmd B"hpkselect" then
-            Some (show_hrows None (h_pk_select pg op npages _ (collect_hrow None) sc table (read_hkey a) (read_names cols) []))
-          else None
-        | [a; k; cols] =>
-          if bytes_eqb cmd B"hiselecteq" then
-            Some (show_hrows None (h_indexed_select_eq pg op npages _ (collect_hrow None) sc table (unhex a) (read_hkey k) (read_names cols) []))
-          else None
-        | _ => None
-        end
+      | Some sc => run_hl_sc cmd sc (unhex table) rest
       end
     | _ => None
     end.
